@@ -30,7 +30,7 @@ FreshCall(e) == [api |-> e.api, path |-> e.path, nprior |-> e.nprior, maxpost |-
                  randomize |-> e.randomize, logprobs |-> e.logprobs, all |-> e.all, nreq |-> e.nreq, budget |-> e.budget,
                  initb |-> e.initb, group |-> e.group, observed |-> e.observed,
                  choice |-> <<>>, nchoice |-> 0, evald |-> <<>>, lls |-> <<>>, nuni |-> 0, u |-> <<>>, ratio |-> <<>>,
-                 tk |-> <<>>, drawsel |-> <<>>]
+                 tk |-> <<>>, drawsel |-> <<>>, llsel |-> <<>>]
 
 \* Evaluations made inside pool tasks arrive in EXECUTION order; what the sampler sees is their concatenation in
 \* TASK order.  They are parked in c.tk and flushed (a silent step) before the next non-evaluation event.
@@ -168,7 +168,10 @@ NeedFlush == l <= Len(Ev) /\ c.api # "none" /\ c.tk # <<>> /\ Ev[l].ev \in {"Dra
 FlushStep ==
   /\ NeedFlush
   /\ c' = IF TasksComplete(c) THEN Flushed(c) ELSE [c EXCEPT !.tk = <<>>]
-  /\ fails' = IF TasksComplete(c) THEN fails ELSE Add(fails, "H.TaskEvaluationsIncomplete", l)
+  /\ fails' = IF ~TasksComplete(c) THEN Add(fails, "H.TaskEvaluationsIncomplete", l)
+               \* each task evaluates exactly the rows it was given, in the order given (cache reads return the requested rows)
+               ELSE IF c.llsel # <<>> /\ CatRows(c, 1) # c.llsel THEN Add(fails, "C05.TaskEvaluatesItsOwnRowsInOrder", l)
+               ELSE fails
   /\ UNCHANGED <<tid, l, lib, acc>>
 
 \* calls executed by real worker processes cannot be observed through the recording helper: the evaluated rows are
@@ -195,6 +198,7 @@ Step ==
                [] e.ev = "Draw" /\ c.api # "none" /\ e.stream = "parent" /\ e.method = "uniform" ->
                       [c EXCEPT !.nuni = @ + 1, !.u = e.u, !.ratio = e.ratio]
                [] e.ev = "Map" /\ c.api # "none" /\ e.worker = "make_full_samples_worker" -> [c EXCEPT !.drawsel = FlattenSel(e.tasks)]
+               [] e.ev = "Map" /\ c.api # "none" /\ e.worker = "marginal_ln_likelihood_worker" -> [c EXCEPT !.llsel = FlattenSel(e.tasks)]
                [] OTHER -> c
      /\ fails' = CASE e.ev = "Eval" /\ c.api # "none" -> AddAll(fails, OnEval(e), l)
                    [] e.ev = "Draw" /\ c.api # "none" /\ e.stream = "parent" /\ e.method = "choice" -> AddAll(fails, OnChoice(e), l)
